@@ -66,10 +66,11 @@ def run_replay(args, timeout=900):
 
 def concretise(prop, f, family, tier, seed):
     """After a failed obligation: look for a failing input on the real crate. -> (replay_path, found)"""
-    os.makedirs(os.path.join(VERIF, 'replay', 'out'), exist_ok=True)
+    outdir = os.environ.get('VERIF_REPLAY_OUT') or os.path.join(VERIF, 'replay', 'out')
+    os.makedirs(outdir, exist_ok=True)
     obl = f['obligation']
     safe = re.sub(r'[^A-Za-z0-9_.@-]+', '_', obl)[:120]
-    path = os.path.join(VERIF, 'replay', 'out', '%s-%s.json' % (prop, safe))
+    path = os.path.join(outdir, '%s-%s.json' % (prop, safe))
     rec = dict(property=prop, obligation=obl, kind=f.get('kind'), origin=f.get('origin'), text=f.get('text'),
                secondary=f.get('secondary'), verifier_output=f.get('rendered', ''), family=family, witness=None,
                note='obligation discharged on the pinned tree, failing on the current tree')
